@@ -7,6 +7,7 @@ cases
   {"t": "sendstr", "key": str|None, "val": str|None} a box with a str (non-bytes) key or value
   {"t": "sendseq", "boxes": [[[khex, vhex(, "str")], ...], ...]}   sendBox() of each box in turn on one connection, then all
                                                     bytes written are given to a receiver:  OK:<hex>|ERR:<hex written> ... => boxes
+  {"t": "dechist", "ty": T, "steps": [["raw", hex] | ["val", V]]}   fromString calls, one after the other, on ONE argument object
   {"t": "arg", "ty": T, "val": V}                   T = "int" | "str" | "bool" | "dec" | "date" | "uni" | ["list", T]
                                                     V = int | hex | bool | ["fin", neg, coefficient, exponent] | ["inf", neg] |
                                                     ["nan", neg, signalling, payload] | [y, mo, d, h, mi, s, us, offset minutes] |
@@ -126,6 +127,11 @@ def _arg(ty):
         return amp.DateTime()
     if ty == "uni":
         return amp.Unicode()
+    if ty == "amplistS":
+        al = amp.AmpList([(b"a", amp.Integer()), (b"b", amp.ListOf(amp.Unicode()))])
+        al.toString = lambda rows: al.toStringProto(rows, None)
+        al.fromString = lambda s: al.fromStringProto(s, None)
+        return al
     return amp.ListOf(_arg(ty[1]))
 
 
@@ -148,6 +154,8 @@ def _val(ty, v):
         return datetime.datetime(*v[:7], tzinfo=tz)
     if ty == "uni":
         return "".join(chr(c) for c in v)
+    if ty == "amplistS":
+        return [{"a": r[0], "b": ["".join(chr(c) for c in s) for s in r[1]]} for r in v]
     if isinstance(ty, list):
         return [_val(ty[1], x) for x in v]
     return v
@@ -175,7 +183,26 @@ def _show(ty, v):
             (o.days * 86400 + o.seconds) // 60)
     if ty == "uni":
         return "u" + ".".join(str(ord(ch)) for ch in v)
+    if ty == "amplistS":
+        return "{" + ";".join("a=%d,b=[%s]" % (r["a"], ",".join("u" + ".".join(str(ord(ch)) for ch in s) for s in r["b"])) for r in v) + "}"
     return "[" + ",".join(_show(ty[1], x) for x in v) + "]"
+
+
+def dechist_impl(ty, steps):
+    """fromString calls one after the other on ONE argument object (Command.arguments are class attributes: shared)"""
+    a = _arg(ty)
+    out = []
+    for kind, x in steps:
+        try:
+            raw = bytes.fromhex(x) if kind == "raw" else a.toString(_val(ty, x))
+        except (struct.error, UnicodeEncodeError):
+            out.append("ERR")
+            continue
+        try:
+            out.append("D:" + _show(ty, a.fromString(raw)))
+        except Exception:
+            out.append("EXC")
+    return " ".join(out)
 
 
 def arg_impl(ty, v):
@@ -284,6 +311,8 @@ def impl(case) -> str:
         return send_impl([(k, v)])
     if t == "sendseq":
         return sendseq_impl([_seq_items(b) for b in case["boxes"]])
+    if t == "dechist":
+        return dechist_impl(case["ty"], case["steps"])
     if t == "arg":
         return arg_impl(case["ty"], case["val"])
     return argx_impl(case["ty"], case["val"])
@@ -388,6 +417,22 @@ def oracle(case, obs):
         if back != _fmt([sorted(items)]) + " |open":
             return Failure(case, f"serialise -> BinaryBoxProtocol gives {back[:160]}", "send-receive-differs")
         return None
+    if t == "dechist":
+        ty = case["ty"]
+        got = obs.split(" ")
+        for k, (step, g) in enumerate(zip(case["steps"], got)):
+            fresh = dechist_impl(ty, [step])          # the same call on a fresh argument object
+            if step[0] == "val" and not _has_surrogate(ty, step[1]) and fresh != "ERR":
+                want = "D:" + _show(ty, _val(ty, step[1]))
+                if g != want:
+                    return Failure(case, f"step {k}: fromString(toString(x)) gave {g[:120]} instead of {want[:120]} after "
+                                         f"{k} earlier fromString call(s) on the same argument object"
+                                         + ("" if fresh != want else " (a fresh object decodes it correctly)"),
+                                   "arg-decode-depends-on-history" if fresh == want else "arg-roundtrip-" + (ty if isinstance(ty, str) else "list"))
+            elif g != fresh:
+                return Failure(case, f"step {k}: decoding {step[1][:60]} gives {g[:100]} here and {fresh[:100]} on a fresh argument object",
+                               "arg-decode-depends-on-history")
+        return None
     if t == "arg":
         ty, v = case["ty"], case["val"]
 
@@ -457,7 +502,22 @@ def _utf8_ref(c: int) -> bytes:
     return bytes([0xF0 | c >> 18, 0x80 | c >> 12 & 0x3F, 0x80 | c >> 6 & 0x3F, 0x80 | c & 0x3F])
 
 
+def _enc_hist(ty, v) -> str:
+    if ty == "amplistS":
+        return b"".join(wire(sorted({b"a": str(r[0]).encode(),
+                                     b"b": b"".join(struct.pack("!H", len(_u(s))) + _u(s) for s in r[1])}.items())) for r in v).hex()
+    return _enc_ref(ty, v)
+
+
+def _u(cps):
+    return b"".join(_utf8_ref(c) for c in cps)
+
+
 def _has_surrogate(ty, v):
+    if ty == "amplistS":
+        return any(0xD800 <= c <= 0xDFFF for r in v for s in r[1] for c in s)
+    if not isinstance(v, list) and ty != "uni":
+        return False
     if ty == "uni":
         return any(0xD800 <= c <= 0xDFFF for c in v)
     if isinstance(ty, list):
@@ -522,6 +582,14 @@ def random_split(rng, s):
     return out
 
 
+def clean_val(rng, ty):
+    for _ in range(50):
+        v = rand_val(rng, ty)
+        if not _has_surrogate(ty, v) and len(str(v)) < 3000:
+            return v
+    return [] if isinstance(ty, list) or ty in ("uni", "amplistS") else 0
+
+
 def rand_val(rng, ty, depth=0):
     if ty == "int":
         return rng.choice([0, 1, -1, 9, 10, -10, 255, 65535, 2 ** 64, -(2 ** 64), 2 ** 64 - 1, -(2 ** 70) - 1, 10 ** 30, 2 ** 1000, -(2 ** 1000),
@@ -542,10 +610,15 @@ def rand_val(rng, ty, depth=0):
         v = rand_argx(rng, "datetime")
         o = v[7]
         return v[:7] + [0 if o is None else (-1 if o[0] == "-" else 1) * (o[1] * 60 + o[2])]
+    if ty == "amplistS":
+        word = lambda: [rng.choice([0x61, 0xFEFF, 0xE9, 0x1F600]) for _ in range(rng.choice([0, 1, 3]))]
+        return [[rng.randrange(-9, 1000), [word() for _ in range(rng.choice([0, 1, 2]))]] for _ in range(rng.choice([0, 1, 2, 3]))]
     if ty == "uni":
         cp = lambda: rng.choice([0, 0x41, 0x7F, 0x80, 0x7FF, 0x800, 0xFFFF, 0x10000, 0x10FFFF, 0xD7FF, 0xE000, 0xFFFD, 0x1F600,
-                                 rng.randrange(0x110000)])
+                                 0xFEFF, 0xFFFE, 0x301, 0x200B, 0x85, 0x2028, rng.randrange(0x110000)])
         s = [cp() for _ in range(rng.choice([0, 1, 2, 5]))]
+        if rng.random() < 0.4:      # boundary code points at position 0: BOM (once, twice), U+FFFE, NUL, astral, combining mark
+            s = rng.choice([[0xFEFF], [0xFEFF, 0xFEFF], [0xFFFE], [0], [0x10000], [0x301], [0xEF, 0xBB, 0xBF]]) + s
         if rng.random() < 0.85:
             s = [c for c in s if not 0xD800 <= c <= 0xDFFF]
         elif rng.random() < 0.5:
@@ -618,6 +691,28 @@ def gen(rng, tier):
     for _ in range(6 * n):
         ty = rng.choice(tys)
         cases.append({"t": "arg", "ty": ty, "val": rand_val(rng, ty)})
+    # decode histories on ONE argument object: a malformed value (cut inside an element, garbage appended) or a valid one,
+    # then valid ones: the decode of a valid encoding must not depend on what was decoded before
+    htys = [["list", "str"], ["list", "uni"], ["list", ["list", "str"]], ["list", "int"], ["list", "dec"], ["list", ["list", "uni"]],
+            "amplistS", "uni", "int", ["list", "bool"]]
+    for _ in range(3 * n):
+        ty = rng.choice(htys)
+        steps = []
+        for k in range(rng.choice([2, 2, 3, 4])):
+            v = clean_val(rng, ty)
+            if rng.random() < (0.6 if k == 0 else 0.25):
+                e = bytes.fromhex(_enc_hist(ty, v))
+                r = rng.random()
+                if r < 0.6 and len(e) > 1:
+                    e = e[:rng.randrange(1, len(e))]                      # ends inside an element / a length prefix
+                elif r < 0.8:
+                    e = e + rng.choice([b"\x00", b"\x00\x05ab", b"\xff", b"\x00\x01"])
+                steps.append(["raw", e.hex()])
+            else:
+                steps.append(["val", v])
+        if steps[-1][0] != "val":
+            steps.append(["val", clean_val(rng, ty)])
+        cases.append({"t": "dechist", "ty": ty, "steps": steps})
     for _ in range(3 * n):
         k = rng.choice(["float", "decimal", "decimal", "decimal", "unicode", "path", "datetime", "amplist", "amplist2", "amplist2",
                         "listdecimal", "listfloat"])
@@ -674,7 +769,7 @@ def rand_argx(rng, k):
     if k == "listfloat":
         return [rand_argx(rng, "float") for _ in range(rng.choice([0, 1, 3]))]
     if k == "unicode":
-        return rng.choice(["", "abc", "\u00e9\u4e2d\U0001F600", "\x00\n", "a" * 100, "\U0010FFFF", "\U00010000" * 20, "\uffff\ufffe", "\ud800",
+        return rng.choice(["\ufeff", "\ufeffabc", "\ufeff\ufeffx", "\ufffe", "\u0301a", "a\ufeff", "", "abc", "\u00e9\u4e2d\U0001F600", "\x00\n", "a" * 100, "\U0010FFFF", "\U00010000" * 20, "\uffff\ufffe", "\ud800",
                            "x\udfffy", "\u0000", "\u00e9" * 32768])
     if k == "path":
         return rng.choice(["/tmp/x", "relative/p", "/", "/a b/\u00e9", "/" + "d" * 255, "/\U0001F600/x"])
@@ -738,6 +833,15 @@ def corpus():
         {"t": "argx", "ty": "datetime", "val": [9999, 12, 31, 23, 59, 59, 999999, ["-", 23, 59]]},
         {"t": "arg", "ty": "int", "val": 2 ** 1000},
         {"t": "arg", "ty": "int", "val": -(2 ** 64)},
+        # Unicode: a leading U+FEFF is a character like any other
+        {"t": "arg", "ty": "uni", "val": [0xFEFF]},
+        {"t": "arg", "ty": "uni", "val": [0xFEFF, 0x61, 0x62, 0x63]},
+        {"t": "arg", "ty": ["list", "uni"], "val": [[0xFEFF, 0xFEFF, 0x78], [0x61, 0xFEFF]]},
+        {"t": "argx", "ty": "unicode", "val": "\ufeffabc"},
+        # one ListOf object: a value cut inside its last element, then a well-formed one
+        {"t": "dechist", "ty": ["list", "str"], "steps": [["raw", "000161000362"], ["val", ["78", "7979"]], ["val", []]]},
+        {"t": "dechist", "ty": ["list", ["list", "str"]], "steps": [["raw", "00050001610003"], ["val", [["61"], []]], ["raw", "00"], ["val", [[]]]]},
+        {"t": "dechist", "ty": "amplistS", "steps": [["raw", "0001610001310001620003000161"], ["val", [[5, [[0x61]]]]]]},
     ]
 
 
@@ -789,6 +893,13 @@ def to_coq(case):
             return None          # str values / very large literals: oracle only
         boxes = [coq_list([f"({coq_bytes(bytes.fromhex(i[0]))}, {coq_bytes(bytes.fromhex(i[1]))})" for i in b], "item") for b in case["boxes"]]
         return "SendSeq " + coq_list(boxes, "box")
+    if t == "dechist":
+        def leaves(ty):
+            return leaves(ty[1]) if isinstance(ty, list) else ty
+        if leaves(case["ty"]) not in ("str", "uni", "bool") or len(str(case["steps"])) > 20000:
+            return None          # raw bytes under int()/Decimal() go through CPython's lenient parsers: oracle only
+        st = [f"(inl {coq_bytes(bytes.fromhex(x))})" if k == "raw" else f"(inr {_coq_val(case['ty'], x)})" for k, x in case["steps"]]
+        return f"DecHist {_coq_ty(case['ty'])} {coq_list(st, '(bytes + val)')}"
     if t == "arg":
         if len(str(case["val"])) > 30000:
             return None          # very large literals: oracle only
